@@ -43,9 +43,9 @@ class Dflt(object):
 
 
 # two lattices: C05 (C unrelated to A) and C06 (diamond below A)
-CLASSES5 = {'Any': object, 'A': A, 'B': B, 'C': C}
+CLASSES5 = {'Any': object, 'A': A, 'B': B, 'C': C, 'AC': (A, C)}      # AC: PythonType((A, C))
 CLASSES6 = {'Any': object, 'A': A, 'B': B, 'C': C2, 'D': D, 'X': X}
-LAT5 = M.Lattice({'A': (), 'B': ('A',), 'C': ()}, {'a': 'A', 'b': 'B', 'c': 'C', 'n': None})
+LAT5 = M.Lattice({'A': (), 'B': ('A',), 'C': ()}, {'a': 'A', 'b': 'B', 'c': 'C', 'n': None}, {'AC': ('A', 'C')})
 LAT6 = M.Lattice({'A': (), 'B': ('A',), 'C': ('A',), 'D': ('B', 'C'), 'X': (), 'DX': ('D', 'X')},
                  {'a': 'A', 'b': 'B', 'c': 'C', 'd': 'D', 'e': 'DX', 'n': None})
 VALUES5 = {'a': A(), 'b': B(), 'c': C(), 'n': None}
@@ -102,7 +102,8 @@ _fds = {}
 def _default_for(classes, typ):
     key = (id(classes), typ)
     if key not in _defaults:
-        d = Dflt() if typ == 'Any' else classes[typ]()
+        cls = classes[typ]
+        d = Dflt() if typ == 'Any' else (cls[0] if isinstance(cls, tuple) else cls)()
         _labels[id(d)] = 'default'
         _defaults[key] = d
     return _defaults[key]
